@@ -1,0 +1,12 @@
+//go:build verif
+
+package reflectx
+
+// TypeImplements(t, a): the reflect type t implements the interface type denoted by a (a typed nil pointer to the
+// interface, or an instance). Defined by reflect.Type.Implements (A-REFLECT).
+//@ spec func TypeImplements(t reflect.Type, a any) bool
+
+//@ func IsTypeImplement
+//@ trusted
+//@ assigns nothing
+//@ ensures [is-implements] result == TypeImplements(typ, _interface)
